@@ -1030,13 +1030,22 @@ Proof.
   - destruct wf; [sauto' | apply after_waiting_S].
 Qed.
 
+Lemma run_armed_S fuel ran : Stp (run_armed fuel ran).
+Proof.
+  revert ran. induction fuel as [|f IH]; intros ran w; cbn [run_armed]; [apply Sat_raise|].
+  kstep. destruct (is_terminated w) eqn:Hl; [apply Sat_ret|]. destruct (intr w); [|apply Sat_ret].
+  match goal with |- Hat _ _ (if ?c then _ else _) _ => destruct c end; [apply Sat_ret|].
+  kstep; [apply Kat_Sat; apply run_action_Kat; exact Hl | intro; apply IH].
+Qed.
+
 Lemma finish_step_S x : Stp (finish_step x).
 Proof.
   intro w. unfold finish_step. kstep; [|intro wz; sauto'].
   kstep.
   - destruct x; sauto'.
   - intro w1. kstep. destruct (is_terminated w1) eqn:Hl; [apply Sat_ret|].
-    destruct (intr w1); apply Kat_Sat; [apply run_action_Kat; exact Hl | apply transition_Kat; right; exact Hl].
+    destruct (intr w1); (kstep; [apply Kat_Sat; first [apply run_action_Kat; exact Hl | apply transition_Kat; right; exact Hl]
+                               | intro; apply run_armed_S]).
 Qed.
 
 Lemma loop_head_S fuel : Stp (loop_head fuel).
